@@ -76,6 +76,78 @@ pub enum CaseDesc {
     Wide { n: usize },
     /// one instance whose *name* is the given text-alphabet entry
     Name { label: String },
+    /// two instances that carry "the same" property under related names on related classes:
+    /// `x` and `y` index `near_sites(base)` = {owner class, another database class, an unknown
+    /// class} x {canonical, serialized, case variants, padded, prefixed spellings}. Whether a name
+    /// is known is a fact about (class, name), never about the name alone or a similar name.
+    NearName { base: usize, x: usize, y: usize, nested: bool },
+    /// text assembled from fragments (whitespace, CDATA delimiters, markup, non-ASCII): every
+    /// sequence of up to three fragments, as an instance name, a String value, a Content URI and
+    /// a Font family
+    Text { frags: Vec<u8> },
+}
+
+pub const TEXT_FRAGMENTS: [&str; 13] = [" ", "\n", "\t", "\r", "]]>", "<![CDATA[", "]", ">", "&", "<", "a", "\u{e9}", "\u{85}"];
+
+pub fn text_of(frags: &[u8]) -> String {
+    frags.iter().map(|f| TEXT_FRAGMENTS[*f as usize]).collect()
+}
+
+pub fn text_cases() -> Vec<CaseDesc> {
+    let n = TEXT_FRAGMENTS.len() as u8;
+    let mut out = Vec::new();
+    for a in 0..n {
+        out.push(CaseDesc::Text { frags: vec![a] });
+        for b in 0..n {
+            out.push(CaseDesc::Text { frags: vec![a, b] });
+            for c in 0..n {
+                out.push(CaseDesc::Text { frags: vec![a, b, c] });
+            }
+        }
+    }
+    out
+}
+
+pub const NEAR_BASES: usize = 6;
+
+/// (class, property name, value) sites of one base property.
+pub fn near_sites(base: usize) -> Vec<(String, String, Variant)> {
+    use rbx_types::{Color3uint8, Tags, Vector3};
+    let (classes, names, value): (Vec<&str>, Vec<&str>, Variant) = match base {
+        0 => (vec!["Part", "Folder", "ZzUnknown"], vec!["Transparency", "transparency", "TRANSPARENCY", "Transparency ", "xTransparency"], Variant::Float32(0.5)),
+        1 => (vec!["Part", "Folder", "ZzUnknown"], vec!["Size", "size", "SIZE", "Size ", " size"], Variant::Vector3(Vector3::new(1.0, 2.0, 3.0))),
+        2 => (vec!["Part", "Folder", "ZzUnknown"], vec!["Anchored", "anchored", "ANCHORED"], Variant::Bool(true)),
+        3 => (vec!["Part", "Folder", "ZzUnknown"], vec!["Color3uint8", "Color", "color", "color3uint8", "Color3"], Variant::Color3uint8(Color3uint8::new(1, 2, 3))),
+        4 => (vec!["Folder", "Part", "ZzUnknown"], vec!["Tags", "tags", "TAGS"], {
+            let mut t = Tags::new();
+            t.push("a");
+            t.push("b");
+            Variant::Tags(t)
+        }),
+        _ => (vec!["IntValue", "Folder", "ZzUnknown"], vec!["Value", "value", "VALUE", "Value "], Variant::Int64(1 << 40)),
+    };
+    let mut out = Vec::new();
+    for c in &classes {
+        for n in &names {
+            out.push(((*c).to_owned(), (*n).to_owned(), value.clone()));
+        }
+    }
+    out
+}
+
+pub fn near_name_cases() -> Vec<CaseDesc> {
+    let mut out = Vec::new();
+    for base in 0..NEAR_BASES {
+        let n = near_sites(base).len();
+        for x in 0..n {
+            for y in 0..n {
+                for nested in [false, true] {
+                    out.push(CaseDesc::NearName { base, x, y, nested });
+                }
+            }
+        }
+    }
+    out
 }
 
 /// index 3 (a service class) is only used by `service_topo_cases`
@@ -281,6 +353,39 @@ pub fn build_plan(desc: &CaseDesc, codec: Codec) -> Plan {
                 .collect();
             Plan {
                 nodes,
+                roots: RootSel::Nodes(vec![0]),
+            }
+        }
+        CaseDesc::NearName { base, x, y, nested } => {
+            let sites = near_sites(*base);
+            let node = |i: usize, k: usize, parent: Option<usize>| PNode {
+                class: sites[k].0.clone(),
+                name: format!("n{}", i),
+                parent,
+                props: vec![(sites[k].1.clone(), PVal::V(sites[k].2.clone()))],
+            };
+            Plan {
+                nodes: vec![node(0, *x, None), node(1, *y, if *nested { Some(0) } else { None })],
+                roots: RootSel::Nodes(if *nested { vec![0] } else { vec![0, 1] }),
+            }
+        }
+        CaseDesc::Text { frags } => {
+            let s = text_of(frags);
+            Plan {
+                nodes: vec![
+                    PNode { class: "Folder".to_owned(), name: s.clone(), parent: None, props: vec![] },
+                    PNode {
+                        class: "ZzUnknownClass".to_owned(),
+                        name: s.clone(),
+                        parent: Some(0),
+                        props: vec![
+                            ("Str".to_owned(), PVal::V(Variant::String(s.clone()))),
+                            ("Uri".to_owned(), PVal::V(Variant::Content(Content::from_uri(s.clone())))),
+                            ("Fnt".to_owned(), PVal::V(Variant::Font(rbx_types::Font::new(&s, rbx_types::FontWeight::Regular, rbx_types::FontStyle::Normal)))),
+                        ],
+                    },
+                    PNode { class: "StringValue".to_owned(), name: "known".to_owned(), parent: Some(0), props: vec![("Value".to_owned(), PVal::V(Variant::String(s)))] },
+                ],
                 roots: RootSel::Nodes(vec![0]),
             }
         }
@@ -1004,6 +1109,11 @@ pub fn label_of(desc: &CaseDesc) -> String {
         CaseDesc::Wide { n } => format!("wide|{}", n),
         CaseDesc::Many { kind, n } => format!("many|{}|{}", kind, n),
         CaseDesc::Name { label } => format!("name|{}", label),
+        CaseDesc::NearName { base, x, y, nested } => {
+            let s = near_sites(*base);
+            format!("near|{}.{}|{}.{}|{}", s[*x].0, s[*x].1, s[*y].0, s[*y].1, if *nested { "nested" } else { "siblings" })
+        }
+        CaseDesc::Text { frags } => format!("text|{:?}", frags),
     }
 }
 
@@ -1028,6 +1138,8 @@ pub fn class_of(desc: &CaseDesc) -> String {
         CaseDesc::Wide { .. } => "wide".to_owned(),
         CaseDesc::Many { kind, .. } => format!("many:{}", kind),
         CaseDesc::Name { .. } => "name".to_owned(),
+        CaseDesc::NearName { base, .. } => format!("near-name:{}", near_sites(*base)[0].1),
+        CaseDesc::Text { .. } => "text".to_owned(),
     }
 }
 
